@@ -12,7 +12,8 @@ Verdict(x) ==
        (IF x.raises = 1 THEN {} ELSE
           F(x.shared = 0, "SharedMutableObject") \cup F(x.equal = 1, "CopyNotEqual") \cup F(x.symmetric = 1, "EqualityNotSymmetric")
           \cup F(x.reflexive = 1, "EqualityNotReflexive") \cup F(x.same_print = 1, "CopyPrintsDifferently")
-          \cup F(x.same_projection = 1, "CopyDiffersStructurally") \cup F(x.damaged = 0, "MutationOfCopyChangesOriginal"))
+          \cup F(x.same_projection = 1, "CopyDiffersStructurally") \cup F(x.damaged = 0, "MutationOfCopyChangesOriginal")
+          \cup F(x.eqprint = 0, "EqualObjectsPrintDifferently"))
   ELSE F(x.raises = 0, "EqualityOrHashRaises") \cup
        (IF x.raises = 1 THEN {} ELSE
           F(x.deterministic = 0 \/ x.plan_equal_when_built_from_equal_steps = 1, "EqualPlansCompareUnequal")
